@@ -45,8 +45,18 @@ def gen(w, rng, tier):
                 nonascii = any(ord(c) > 127 for c in u["symbol"])
                 ops.append((f"fmt:{'nonascii' if nonascii else 'ascii'}:{lab}:w{wd != '-'}:p{p != '-'}",
                             f"fmt {t['name']} {i} {a} {flags} {wd} {p}"))
-            flags, wd, p = rand_spec(rng)
-            ops.append(("fmtu", f"fmtu {t['name']} {i} {flags} {wd} {p}"))
+            # a unit displays as its symbol under the ordinary string formatting rules: random
+            # specifications, and for EVERY unit one width that pads (each alignment in turn) and one
+            # precision that truncates its symbol
+            for _ in range(per):
+                flags, wd, p = rand_spec(rng)
+                ops.append(("fmtu", f"fmtu {t['name']} {i} {flags} {wd} {p}"))
+            nsym = len(u["symbol"])
+            al = ALIGNS[(i + len(ops)) % len(ALIGNS)]
+            fl = rng.choice(FILLS) if al != "n" else "n"
+            ops.append(("fmtu:pad", f"fmtu {t['name']} {i} {fl}{al}00 {nsym + 1 + rng.below(5)} -"))
+            ops.append(("fmtu:trunc", f"fmtu {t['name']} {i} nn00 - {max(0, nsym - 1)}"))
+            ops.append(("fmtu:pad+trunc", f"fmtu {t['name']} {i} {rng.choice(FILLS)}{rng.choice(ALIGNS[1:])}00 {nsym + 2} {max(0, nsym - 1)}"))
     types = [x for x in RATE_TYPES if x in w.by_name]
     for tq in types:
         for pq in types:
@@ -60,4 +70,4 @@ def gen(w, rng, tier):
 
 
 def nontrivial(c):
-    return "wTrue" in c.label or "pTrue" in c.label or "nonascii" in c.label or c.label in ("fmtu", "ratefmt") or c.label.startswith("fmtrt")
+    return "wTrue" in c.label or "pTrue" in c.label or "nonascii" in c.label or c.label.startswith("fmtu") or c.label == "ratefmt" or c.label.startswith("fmtrt")
